@@ -65,10 +65,12 @@ func intrinsicFor(fn *ssa.Function, name string) externalFn {
 	}
 	pp := pkgPathOf(fn)
 	if strings.HasSuffix(pp, "/zzverifrt") {
-		if e, ok := rtIntrinsics[fn.Name()]; ok {
-			return e
+		if fn.Signature.Recv() == nil {
+			if e, ok := rtIntrinsics[fn.Name()]; ok {
+				return e
+			}
 		}
-		return nil
+		return nil // model code of the runtime package is interpreted
 	}
 	if fn.Synthetic == "package initializer" || strings.HasPrefix(fn.Name(), "init#") {
 		return nil // initialisers of stubbed packages still run (function-typed globals such as log.G)
@@ -210,6 +212,35 @@ func init() {
 		"Unsupported": func(fr *frame, a []value) value {
 			fr.i.unsupported("%s", fr.i.argStr(a[0], "message"))
 			return nil
+		},
+		"SpawnDeferred": func(fr *frame, a []value) value {
+			b, _ := isConstBool(a[0])
+			fr.i.cfg.SpawnDeferred = b
+			return nil
+		},
+		"Pending": func(fr *frame, a []value) value {
+			n := 0
+			for _, th := range fr.i.threads[1:] {
+				if !th.done && (th.ready == nil || th.ready()) {
+					n++
+				}
+			}
+			return fr.i.mkInt(types.Int, int64(n))
+		},
+		"RunPending": func(fr *frame, a []value) value {
+			i := fr.i
+			k := int(i.concInt(a[0], "pending thread index"))
+			n := 0
+			for _, th := range i.threads[1:] {
+				if !th.done && (th.ready == nil || th.ready()) {
+					if n == k {
+						i.switchTo(i.cur, th)
+						return i.mkBool(true)
+					}
+					n++
+				}
+			}
+			return i.mkBool(false)
 		},
 		"Timers": func(fr *frame, a []value) value {
 			n := 0
